@@ -37,6 +37,7 @@ pub mod mpsc {
     #[verifier::external_body]
     #[verifier::reject_recursive_types(T)]
     pub struct SendError<T> { _p: core::marker::PhantomData<T> }
+    impl<T> core::fmt::Debug for SendError<T> { #[verifier::external_body] fn fmt(&self, f: &mut core::fmt::Formatter<'_>) -> core::fmt::Result { unimplemented!() } }
     impl<T> UnboundedSender<T> {
         /// the queue this sender feeds
         pub uninterp spec fn chan(&self) -> int;
@@ -205,6 +206,70 @@ Runtime::from(
         assert(r24_trace == seq![1int, 0int, 2int, 1int]);   // [C09]
         assert(rt.ran_chan() == tx.chan());   // [C10] tasks sent through the handle run on this thread
 //@end
+
+
+// ===================================================================== System::with_tokio_rt: wiring of a new system (C09)
+pub mod oneshot {
+    use vstd::prelude::*;
+    #[verifier::external_body]
+    #[verifier::reject_recursive_types(T)]
+    pub struct Sender<T> { _p: core::marker::PhantomData<T> }
+    #[verifier::external_body]
+    #[verifier::reject_recursive_types(T)]
+    pub struct Receiver<T> { _p: core::marker::PhantomData<T> }
+    impl<T> Sender<T> { pub uninterp spec fn chan(&self) -> int; }
+    impl<T> Receiver<T> { pub uninterp spec fn chan(&self) -> int; }
+    #[verifier::external_body]
+    pub fn channel<T>() -> (r: (Sender<T>, Receiver<T>)) ensures r.0.chan() == r.1.chan() { unimplemented!() }
+}
+/// system.rs SystemController as this function sees it (its `new` and `poll` are verified in unit rt)
+pub struct SystemController { pub cmd_chan: int, pub stop_chan: int }
+impl SystemController {
+    #[verifier::external_body]
+    pub fn new(cmd_rx: mpsc::UnboundedReceiver<SystemCommand>, stop_tx: oneshot::Sender<i32>) -> (r: SystemController)
+        ensures r.cmd_chan == cmd_rx.chan(), r.stop_chan == stop_tx.chan(),
+    { unimplemented!() }
+}
+//@check_struct file=actix-rt/src/system.rs name=SystemRunner fields=rt,stop_rx
+pub struct SystemRunner { pub rt: Runtime, pub stop_rx: oneshot::Receiver<i32> }
+/// PROPHECY names: the controller the (one) `rt.spawn(..)` of the verified call starts; the (one) command sent on the
+/// system's queue during the call
+pub uninterp spec fn spawned_ctrl() -> SystemController;
+pub uninterp spec fn sent_sys_cmd() -> (int, SystemCommand);
+impl Runtime {
+    #[verifier::external_body]
+    pub fn spawn(&self, c: SystemController) -> (h: JoinHandle) ensures spawned_ctrl() == c { unimplemented!() }
+}
+impl mpsc::UnboundedSender<SystemCommand> {
+    #[verifier::external_body]
+    pub fn send_cmd(&self, c: SystemCommand) -> (r: Result<(), mpsc::SendError<SystemCommand>>)
+        ensures r is Ok, sent_sys_cmd() == (self.chan(), c),      // the receiver is alive: it is created in the same function
+    { unimplemented!() }
+}
+
+impl System {
+//@extract file=actix-rt/src/system.rs item="impl System / fn with_tokio_rt" ret=r props=C09,C10 name=system::with_tokio_rt tls_state="CURRENT:current" tls_calls="System::construct" sig_replace="F: FnOnce() -> tokio::runtime::Runtime,=>F: FnOnce() -> TokioRuntime," trace_calls="send,spawn"
+//@replace pattern="crate::runtime::Runtime::from(" rule=R15
+Runtime::from(
+//@replace pattern="rt.block_on(vasync_block())" rule=R11b
+Arbiter::in_new_system(r25_tls)
+//@replace pattern=".send(" rule=R8 optional
+.send_cmd(
+//@spec
+    requires call_requires(runtime_factory, ()),
+    ensures
+        // The creating thread's System is the new one; its command queue is the one the spawned controller reads; the
+        // controller's stop channel is the one the returned runner waits on   [C09]
+        final(r25_tls).current.v matches Some(s) && s.sys_tx.chan() == spawned_ctrl().cmd_chan,
+        spawned_ctrl().stop_chan == r.stop_rx.chan(),
+        // the system's own arbiter is registered with the controller (under the reserved id) — so a system stop stops it
+        // too — and that registration is queued BEFORE the controller starts   [C09]
+        final(r25_tls).current.v matches Some(s) && sent_sys_cmd().0 == s.sys_tx.chan()
+            && (sent_sys_cmd().1 matches SystemCommand::RegisterArbiter(id, h) && id == usize::MAX && is_hnd(final(r25_tls).handle.v, h.tx.chan())),
+//@insert before="SystemRunner {"
+        assert(r24_trace == seq![0int, 1int]);   // [C09] registered, then the controller is started
+//@end
+}
 
 } // verus!
 fn main() {}
